@@ -99,6 +99,9 @@ pub enum FsOp {
     WriteMmap { path: String, content: String },
     /// new content with an mtime OLDER than the current one (an older revision moved in place)
     WriteOlder { path: String, content: String },
+    /// new content with a modification time before 1970 (an old archive unpacked with its dates
+    /// kept): no duration since the epoch exists for it
+    WriteAncient { path: String, content: String },
     Create { path: String, content: String },
     Delete { path: String },
     Rename { from: String, to: String },
